@@ -389,6 +389,13 @@ next:;
 
         // IMPORTANT: K is unbounded, since the value function may be negative.
         lp_.setUnbounded(S);
+        // delta is unbounded too: the LP is then feasible for every hyperplane
+        // we are asked about (a negative delta just means "no witness", which
+        // findWitness() checks anyway). With delta >= 0 the LP was infeasible
+        // exactly when there was no witness, so a spurious INFEASIBLE from
+        // lp_solve (seen when a set mixes huge and order-one entries) could
+        // not be told apart from a legitimate "no" and lost needed vectors.
+        lp_.setUnbounded(S+1);
 
         lp_.row[S]     = -1.0;
         lp_.row[S + 1] = +0.0;
